@@ -206,7 +206,7 @@ Proof.
   induction fuel; intros b i x Hi Hf; [lia|]. cbn [integer_digits].
   destruct (i =? blen b) eqn:E; [eexists; split; [reflexivity|simpl; lia]|]. rewrite get_in by lia.
   destruct (is_digit (bget b i)); [|eexists; split; [reflexivity|simpl; lia]].
-  destruct (u64 (x * 10 + (bget b i - 48)) <? x); [eexists; split; [reflexivity|simpl; lia]|].
+  destruct (x >? (U64_MAX - (bget b i - 48)) / 10); [eexists; split; [reflexivity|simpl; lia]|].
   destruct (IHfuel b (i + 1) (u64 (x * 10 + (bget b i - 48)))) as (r & -> & Hr); [lia|lia|].
   exists r. split; [reflexivity|]. destruct r as [[p v]|p]; lia.
 Qed.
